@@ -17,13 +17,23 @@ variable {φ : Type}
 /-! ## Delay: echoes -/
 
 /-- **the line length is max(⌊delay·fs⌋, 1) frames** (delay time in nanoseconds `ns`, sample rate `sr`), for `init`
-    and for a sample-rate change, all zeros.  (Over ℝ.  In `f64` the product can round below a whole number
-    of frames: known finding `delay-length-float-floor`.) -/
+    and for a sample-rate change, all zeros — and since the repair of `delay-length-float-floor` this is exact in
+    the code too: the length is computed in integers, `ns·sr / 10⁹` rounded down, which IS `⌊ns/10⁹ · sr⌋`
+    (before, the `f64` product could land just below a whole number of frames and the line was one frame
+    short).  In particular a delay of exactly `k` frames (`ns·sr = k·10⁹`, `k ≥ 1`) gives a line of exactly `k`. -/
 theorem C14_delay_line_length (C : FxChain ℝ φ) (d : Delay ℝ φ) (sr ibs : ℕ) :
     (d.init C sr ibs).buffer = List.replicate (max ⌊(d.delayNs : ℝ) / 1000000000 * (sr : ℝ)⌋₊ 1) Frame.zero
       ∧ (d.changeRate C sr).buffer
-          = List.replicate (max ⌊(d.delayNs : ℝ) / 1000000000 * (sr : ℝ)⌋₊ 1) Frame.zero := by
-  simp [Delay.init, Delay.changeRate, Delay.frames, durToSecs_real]
+          = List.replicate (max ⌊(d.delayNs : ℝ) / 1000000000 * (sr : ℝ)⌋₊ 1) Frame.zero
+      ∧ Delay.frames d.delayNs sr = max (d.delayNs * sr / 1000000000) 1
+      ∧ d.delayNs * sr / 1000000000 = ⌊(d.delayNs : ℝ) / 1000000000 * (sr : ℝ)⌋₊
+      ∧ ∀ k, 1 ≤ k → d.delayNs * sr = k * 1000000000 → (d.init C sr ibs).buffer.length = k := by
+  refine ⟨by simp [Delay.init, Delay.changeRate, Delay.frames_real],
+    by simp [Delay.init, Delay.changeRate, Delay.frames_real], rfl, Delay.frames_eq_floor _ _, ?_⟩
+  intro k hk h
+  simp only [Delay.init, Delay.frames, List.length_replicate, h]
+  have : k * 1000000000 / 1000000000 = k := Nat.mul_div_cancel k (by norm_num)
+  omega
 
 /-- the line is never empty (at least one frame, whatever the delay time and sample rate): the
     `chunks_mut(0)` panic of a zero-length line is unreachable. -/
